@@ -851,7 +851,54 @@ fn fiber_interplay(g: &mut Gen, out: &mut Vec<Stmt>) {
 }
 
 /// A fiber with a generated body and a driver sequence of calls.
+/// Dozens of rejected fiber operations in a row (calls of a finished fiber, calls of the fiber that is
+/// running, yields outside any fiber, calls with too many arguments), each caught; afterwards fibers
+/// work as before: a rejected operation leaves nothing behind, however often it happens.
+fn many_rejected(g: &mut Gen, out: &mut Vec<Stmt>) {
+    g.label_pub("many_rejected_fiber_operations");
+    let n = |x: f64| Expr::Num(x);
+    let v = |x: &str| Expr::var(x);
+    let done = g.fresh_pub("fdone");
+    let count = g.fresh_pub("rejected");
+    let k = g.fresh_pub("k");
+    let e = g.fresh_pub("e");
+    let times = 66.0 + g.rd.below(40) as f64;
+    let lam0 = |body: Expr| {
+        Expr::Lambda(Rc::new(FnDef { name: RefCell::new(String::new()), params: vec![], body: Body::Expr(Box::new(body)), kind: FnKind::Lambda }))
+    };
+    out.push(Stmt::var(&done, Some(Expr::invoke(v("Fiber"), "new", vec![lam0(n(1.0))]))));
+    out.push(Stmt::print(Expr::invoke(v(&done), "call", vec![])));
+    out.push(Stmt::var(&count, Some(n(0.0))));
+    let bad = match g.rd.below(4) {
+        0 => Expr::invoke(v(&done), "call", vec![]),
+        1 => Expr::invoke(v("Fiber"), "yield", vec![n(1.0)]),
+        2 => Expr::invoke(Expr::invoke(v("Fiber"), "new", vec![lam0(n(2.0))]), "call", vec![n(1.0), n(2.0)]),
+        _ => Expr::invoke(v(&done), "call", vec![n(5.0)]),
+    };
+    out.push(Stmt::new(StmtKind::For(
+        k.clone(),
+        Expr::range(n(0.0), n(times)),
+        vec![Stmt::new(StmtKind::Try(
+            vec![Stmt::expr(bad)],
+            Some((e.clone(), vec![Stmt::expr(Expr::assign_var(&count, Expr::bin(BinOp::Add, v(&count), n(1.0))))])),
+            None,
+        ))],
+    )));
+    g.note_range(0, times as i64);
+    out.push(Stmt::print(v(&count)));
+    // fibers still work: a fresh one, started, resumed and finished
+    let fresh = g.fresh_pub("ffresh");
+    out.push(Stmt::var(&fresh, Some(Expr::invoke(v("Fiber"), "new", vec![lam0(Expr::bin(BinOp::Add, Expr::invoke(v("Fiber"), "yield", vec![n(10.0)]), n(1.0)))]))));
+    out.push(Stmt::print(Expr::invoke(v(&fresh), "call", vec![])));
+    out.push(Stmt::print(Expr::invoke(v(&fresh), "call", vec![n(41.0)])));
+    out.push(Stmt::print(Expr::invoke(v(&fresh), "has_finished", vec![])));
+}
+
 pub fn fiber_stmts(g: &mut Gen, out: &mut Vec<Stmt>) {
+    if g.rd.chance(1, 14) && g.at_global_pub() {
+        many_rejected(g, out);
+        return;
+    }
     if g.rd.chance(1, 6) {
         yield_outside(g, out);
         return;
